@@ -3,8 +3,9 @@ import GqlVerif.Proofs.ComposedC11
 /-!
 # C04 — the `default_*` bodies: the literal model agrees with `literalOk` and with the `.defaults` item
 
-* `literalInner_literalOk`, **`valueToLiteral_literalOk`**: forgetting the expression, `valueToLiteral` *is*
-  `literalOk` — same success, same panic, same fuel exhaustion — for every fuel, value, type and qualifier list.
+* **`valueToLiteral_literalOk`**: forgetting the expression, `valueToLiteral` *is* `literalOk` — same success, same
+  panic, same fuel exhaustion — for every fuel, value, type and qualifier list (`null` at a nullable position is
+  `None`: success; at a non-null position both panic).
   Hypothesis `IdsInRange`: the scalar / enum ids met are indices of the schema (`scalar_value_to_literal` calls
   `get_scalar` / `get_enum`, which `literalOk` does not model; ids produced by the schema's own name table are in
   range).  **`valueToLiteral_ok_iff_literalOk`** is the corollary on success.
@@ -61,17 +62,18 @@ theorem forget_mapM {α β} (f : α → Outcome β) (g : α → Outcome Unit) :
     | ok b => cases xs.mapM f <;> rfl
 
 section
-variable (c : Ctx) (lit : Value → TypeId → List Qual → Outcome LitExpr) (ok : Value → TypeId → Outcome Unit)
+variable (c : Ctx) (lit : Value → TypeId → List Qual → Outcome LitExpr) (ok : Value → TypeId → List Qual → Outcome Unit)
 
-/-- what `literalOk` does with the members of an object value -/
-abbrev member (kvs : List (String × Value)) : String × FieldType → Outcome Unit := fun (fname, fty) =>
-  match kvs.find? (·.1 == fname) with
-  | some (_, v) => ok v fty.id
-  | none => pure ()
+/-- what `literalOk` does with the members of an object value (`q`: the qualifiers a member is rendered at) -/
+abbrev member (q : FieldType → List Qual) (kvs : List (String × Value)) : String × FieldType → Outcome Unit :=
+  fun (fname, fty) =>
+    match kvs.find? (·.1 == fname) with
+    | some (_, v) => ok v fty.id (q fty)
+    | none => pure ()
 
 theorem forget_oneOfVariants (ctor : String) (kvs : List (String × Value)) :
-    ∀ fields : List (String × FieldType), (∀ p ∈ fields, ∀ v qs, forget (lit v p.2.id qs) = ok v p.2.id) →
-      forget (oneOfVariants c lit ctor kvs fields) = fields.forM (member ok kvs)
+    ∀ fields : List (String × FieldType), (∀ p ∈ fields, ∀ v qs, forget (lit v p.2.id qs) = ok v p.2.id qs) →
+      forget (oneOfVariants c lit ctor kvs fields) = fields.forM (member ok (fun fty => .required :: fty.quals) kvs)
   | [], _ => rfl
   | (name, ty) :: rest, h => by
     have ih := forget_oneOfVariants ctor kvs rest (fun p hp => h p (by simp [hp]))
@@ -87,8 +89,8 @@ theorem forget_oneOfVariants (ctor : String) (kvs : List (String × Value)) :
       | ok e => cases oneOfVariants c lit ctor kvs rest <;> rfl
 
 theorem forget_structFields (kvs : List (String × Value)) :
-    ∀ fields : List (String × FieldType), (∀ p ∈ fields, ∀ v qs, forget (lit v p.2.id qs) = ok v p.2.id) →
-      forget (structFields c lit kvs fields) = fields.forM (member ok kvs)
+    ∀ fields : List (String × FieldType), (∀ p ∈ fields, ∀ v qs, forget (lit v p.2.id qs) = ok v p.2.id qs) →
+      forget (structFields c lit kvs fields) = fields.forM (member ok (fun fty => fty.quals) kvs)
   | [], _ => rfl
   | (name, ty) :: rest, h => by
     have ih := forget_structFields kvs rest (fun p hp => h p (by simp [hp]))
@@ -106,12 +108,12 @@ theorem forget_structFields (kvs : List (String × Value)) :
       | error e => rfl
       | ok e => cases structFields c lit kvs rest <;> rfl
 
-/-- `render_object_literal`, forgetting the expression -/
+/-- `render_object_literal`, forgetting the expression: the members of a `@oneOf` input are rendered non-null -/
 theorem forget_objectLiteralWith (kvs : List (String × Value)) (iid : Nat)
-    (h : ∀ i, c.s.inputs[iid]? = some i → ∀ p ∈ i.fields, ∀ v qs, forget (lit v p.2.id qs) = ok v p.2.id) :
+    (h : ∀ i, c.s.inputs[iid]? = some i → ∀ p ∈ i.fields, ∀ v qs, forget (lit v p.2.id qs) = ok v p.2.id qs) :
     forget (objectLiteralWith c lit kvs iid) = (do
       let i ← c.s.getInput iid
-      i.fields.forM (member ok kvs)) := by
+      i.fields.forM (member ok (fun fty => if i.isOneOf then .required :: fty.quals else fty.quals) kvs)) := by
   unfold objectLiteralWith
   cases hi : c.s.inputs[iid]? with
   | none => simp [Schema.getInput, hi, panic', bind, Except.bind, forget, Except.map]
@@ -119,14 +121,18 @@ theorem forget_objectLiteralWith (kvs : List (String × Value)) (iid : Nat)
     have hg : c.s.getInput iid = .ok i := by simp [Schema.getInput, hi, pure, Except.pure]
     simp only [hg, bind, Except.bind]
     split
-    · rw [← forget_oneOfVariants c lit ok _ kvs i.fields (h i hi)]
+    · rename_i hone
+      try simp only [hone, ↓reduceIte]
+      rw [← forget_oneOfVariants c lit ok _ kvs i.fields (h i hi)]
       cases oneOfVariants c lit (keywordReplace (c.o.normalization.inputName c.cs i.name)) kvs i.fields with
       | error e => rfl
       | ok vs =>
         cases vs with
         | nil => rfl
         | cons a t => cases t <;> rfl
-    · rw [← forget_structFields c lit ok kvs i.fields (h i hi)]
+    · rename_i hone
+      try simp only [hone, Bool.false_eq_true, ↓reduceIte]
+      rw [← forget_structFields c lit ok kvs i.fields (h i hi)]
       cases structFields c lit kvs i.fields <;> rfl
 
 end
@@ -172,33 +178,66 @@ theorem scalarNameOf_inRange {c : Ctx} {ty : TypeId} (h : idInRange c.s ty = tru
     exact ⟨some n, by simp [scalarNameOf, TypeId.asScalar?, hn, bind, Except.bind, pure, Except.pure]⟩
   | _ => exact ⟨none, rfl⟩
 
-/-- **`literalInner` forgets to `literalOk`** (the qualifiers are immaterial for success) -/
-theorem literalInner_literalOk (c : Ctx) (hs : IdsInRange c.s) : ∀ (fuel : Nat) (v : Value) (ty : TypeId)
+theorem elemQuals_other {q : List Qual} (h : ∀ rest, q ≠ .list :: rest) : elemQuals q = [] := by
+  cases q with
+  | nil => rfl
+  | cons a q =>
+    cases a with
+    | required => rfl
+    | list => exact absurd rfl (h q)
+
+/-- `valueToLiteral` after the `null` test -/
+theorem valueToLiteral_of_not_null (c : Ctx) (fuel : Nat) (v : Value) (ty : TypeId) (quals : List Qual)
+    (h : ((stripRequired quals).1 && valueIsNull v) = false) :
+    valueToLiteral c fuel v ty quals =
+      (optWrap (stripRequired quals).1) <$> literalInner c fuel v ty (stripRequired quals).2 := by
+  unfold valueToLiteral
+  simp only [h, Bool.false_eq_true, ↓reduceIte]
+
+/-- `null` at a nullable position: `None`, before anything else -/
+theorem valueToLiteral_null (c : Ctx) (fuel : Nat) (ty : TypeId) (quals : List Qual)
+    (h : (stripRequired quals).1 = true) : valueToLiteral c fuel .null ty quals = .ok .none := by
+  unfold valueToLiteral
+  simp only [h, valueIsNull, Bool.and_self, ↓reduceIte]
+  rfl
+
+/-- **`valueToLiteral` forgets to `literalOk`**: same success, same panic, same fuel exhaustion — `null` at a nullable
+    position succeeds, at a non-null position panics -/
+theorem valueToLiteral_literalOk (c : Ctx) (hs : IdsInRange c.s) : ∀ (fuel : Nat) (v : Value) (ty : TypeId)
     (quals : List Qual), idInRange c.s ty = true →
-      forget (literalInner c fuel v ty quals) = literalOk c.s fuel v ty := by
+      forget (valueToLiteral c fuel v ty quals) = literalOk c.s fuel v ty quals := by
   intro fuel
   induction fuel with
-  | zero => intro v ty quals _; simp [literalInner, literalOk, forget, Except.map]
+  | zero =>
+    intro v ty quals _
+    unfold valueToLiteral
+    simp only [literalOk]
+    split
+    · rfl
+    · rw [forget_map, literalInner_zero]; rfl
   | succ fuel ih =>
     intro v ty quals hty
-    -- the recursive call on an element / a member
-    have hlit : ∀ (x : Value) (t : TypeId) (qs : List Qual), idInRange c.s t = true →
-        forget (valueToLiteral c fuel x t qs) = literalOk c.s fuel x t := by
-      intro x t qs ht
-      unfold valueToLiteral
-      rw [forget_map]
-      exact ih x t _ ht
+    cases hc : ((stripRequired quals).1 && valueIsNull v)
+    case true =>
+      rw [Bool.and_eq_true] at hc
+      cases v <;> simp only [valueIsNull, Bool.false_eq_true, and_false] at hc
+      rw [valueToLiteral_null c _ ty quals hc.1]
+      simp only [literalOk, hc.1, ↓reduceIte]
+      rfl
+    case false =>
+    rw [valueToLiteral_of_not_null c _ v ty quals hc, forget_map]
     obtain ⟨o, ho⟩ := scalarNameOf_inRange (c := c) hty
     by_cases hl : ∃ xs, v = .list xs
     · obtain ⟨xs, rfl⟩ := hl
       rw [literalOk]
-      by_cases hq : ∃ rest, quals = .list :: rest
-      · obtain ⟨rest, rfl⟩ := hq
-        rw [literalInner_list_list, forget_map]
-        exact forget_mapM _ _ _ (fun x _ => hlit x ty rest hty)
-      · rw [literalInner_list_other c fuel xs ty quals (fun rest h => hq ⟨rest, h⟩), forget_map]
-        exact forget_mapM _ _ _ (fun x _ => hlit x ty [] hty)
-    · rw [literalInner_single c fuel v ty quals (fun xs h => hl ⟨xs, h⟩), forget_map]
+      by_cases hq : ∃ rest, (stripRequired quals).2 = .list :: rest
+      · obtain ⟨rest, hq⟩ := hq
+        rw [hq, literalInner_list_list, forget_map]
+        exact forget_mapM _ _ _ (fun x _ => ih x ty rest hty)
+      · rw [literalInner_list_other c fuel xs ty _ (fun rest h => hq ⟨rest, h⟩), forget_map,
+          elemQuals_other (fun rest h => hq ⟨rest, h⟩)]
+        exact forget_mapM _ _ _ (fun x _ => ih x ty [] hty)
+    · rw [literalInner_single c fuel v ty _ (fun xs h => hl ⟨xs, h⟩), forget_map]
       unfold scalarToLiteral scalarToLiteralWith
       simp only [ho, bind, Except.bind]
       cases v with
@@ -210,41 +249,36 @@ theorem literalInner_literalOk (c : Ctx) (hs : IdsInRange c.s) : ∀ (fuel : Nat
         | some iid =>
           simp only []
           unfold objectLiteral
-          rw [forget_objectLiteralWith c _ (fun v t => literalOk c.s fuel v t) kvs iid]
+          rw [forget_objectLiteralWith c _ (fun v t qs => literalOk c.s fuel v t qs) kvs iid]
           · rfl
           · intro i hi p hp v qs
-            exact hlit v p.2.id qs (hs i (mem_inputs hi) p hp)
+            exact ih v p.2.id qs (hs i (mem_inputs hi) p hp)
       | «enum» en =>
-        rw [show literalOk c.s (fuel+1) (Value.enum en) ty = pure () by simp [literalOk]]
+        rw [show literalOk c.s (fuel+1) (Value.enum en) ty quals = pure () by simp [literalOk]]
         cases ty with
         | «enum» k =>
           obtain ⟨e, he⟩ := getEnum_inRange hty
           simp [TypeId.asEnum?, he, forget, Except.map, pure, Except.pure]
         | _ => rfl
       | int n =>
-        rw [show literalOk c.s (fuel+1) (Value.int n) ty = pure () by simp [literalOk]]
+        rw [show literalOk c.s (fuel+1) (Value.int n) ty quals = pure () by simp [literalOk]]
         simp only []
         split
         · rfl
         · split <;> rfl
       | var n => rw [literalOk]; rfl
-      | null => rw [literalOk]; rfl
-      | float t => rw [show literalOk c.s (fuel+1) (Value.float t) ty = pure () by simp [literalOk]]; rfl
-      | str t => rw [show literalOk c.s (fuel+1) (Value.str t) ty = pure () by simp [literalOk]]; rfl
-      | bool t => rw [show literalOk c.s (fuel+1) (Value.bool t) ty = pure () by simp [literalOk]]; rfl
-
-/-- **`valueToLiteral` forgets to `literalOk`**: same success, same panic, same fuel exhaustion -/
-theorem valueToLiteral_literalOk (c : Ctx) (hs : IdsInRange c.s) (fuel : Nat) (v : Value) (ty : TypeId)
-    (quals : List Qual) (hty : idInRange c.s ty = true) :
-    forget (valueToLiteral c fuel v ty quals) = literalOk c.s fuel v ty := by
-  unfold valueToLiteral
-  rw [forget_map]
-  exact literalInner_literalOk c hs fuel v ty _ hty
+      | null =>
+        simp only [valueIsNull, Bool.and_true] at hc
+        simp only [literalOk, hc, Bool.false_eq_true, ↓reduceIte]
+        rfl
+      | float t => rw [show literalOk c.s (fuel+1) (Value.float t) ty quals = pure () by simp [literalOk]]; rfl
+      | str t => rw [show literalOk c.s (fuel+1) (Value.str t) ty quals = pure () by simp [literalOk]]; rfl
+      | bool t => rw [show literalOk c.s (fuel+1) (Value.bool t) ty quals = pure () by simp [literalOk]]; rfl
 
 /-- **`valueToLiteral_ok_iff_literalOk`** -/
 theorem valueToLiteral_ok_iff_literalOk (c : Ctx) (hs : IdsInRange c.s) (fuel : Nat) (v : Value) (ty : TypeId)
     (quals : List Qual) (hty : idInRange c.s ty = true) :
-    (∃ e, valueToLiteral c fuel v ty quals = .ok e) ↔ literalOk c.s fuel v ty = .ok () := by
+    (∃ e, valueToLiteral c fuel v ty quals = .ok e) ↔ literalOk c.s fuel v ty quals = .ok () := by
   rw [← valueToLiteral_literalOk c hs fuel v ty quals hty]
   cases valueToLiteral c fuel v ty quals with
   | error e => simp [forget, Except.map]
@@ -253,7 +287,7 @@ theorem valueToLiteral_ok_iff_literalOk (c : Ctx) (hs : IdsInRange c.s) (fuel : 
 /-- … and the failures are the same -/
 theorem valueToLiteral_error_iff_literalOk (c : Ctx) (hs : IdsInRange c.s) (fuel : Nat) (v : Value) (ty : TypeId)
     (quals : List Qual) (hty : idInRange c.s ty = true) (err : Err) :
-    valueToLiteral c fuel v ty quals = .error err ↔ literalOk c.s fuel v ty = .error err := by
+    valueToLiteral c fuel v ty quals = .error err ↔ literalOk c.s fuel v ty quals = .error err := by
   rw [← valueToLiteral_literalOk c hs fuel v ty quals hty]
   cases valueToLiteral c fuel v ty quals with
   | error e => simp [forget, Except.map]
@@ -329,7 +363,7 @@ theorem variablesItems_defaults {c : Ctx} {op : Nat} {items : List Item} (h : va
         | none => pure none
         | some d => do
           let t ← variableType c v
-          literalOk c.s 64 d v.ty.id
+          literalOk c.s 64 d v.ty.id v.ty.quals
           pure (some ("default_" ++ v.name, t))) = .ok dfl := by
   unfold variablesItems at h
   simp only [] at h
